@@ -21,6 +21,7 @@ def run(rep):
     rep.guard(t7, rep, w)
     rep.guard(t8, rep, w)
     rep.guard(t10, rep, w)
+    rep.guard(t11, rep, w)
     import c03_progress
     rep.guard(c03_progress.t9, rep, w)
 
@@ -750,3 +751,25 @@ def t10(rep, w):
                         f.loc())
     if n == 0:
         raise Broken('C03', 'floor', 'no parked scanner error found (Scanner::string keeps `error`)')
+
+
+def t11(rep, w):
+    """a local variable exists in two steps: declared (named, depth unknown - it must not be read in its own initialiser) and then
+    initialised. Scope ends, `break` and `continue` walk the local list and unwrap every depth, so a function that declares a
+    local and can leave - on an error path too: the parser carries on after reporting - without initialising it turns the next
+    block end of the same function into a panic."""
+    r = rep.rule('T11', 'every path from declaring a local to the end of the declaring function initialises it (error paths included)', floor=8)
+    DECL = {P + 'parse_variable', P + 'declare_variable', 'yarel::compiler::Compiler::add_local'}
+    INIT = {P + 'define_variable', P + 'mark_initialised', 'yarel::compiler::Compiler::mark_initialised', 'yarel::compiler::Compiler::mark_last_initialised'}
+    for x in DECL | INIT:
+        w.require_fn(x, 'C03')
+    for f in sorted(w.yarel.fns.values(), key=lambda x: x.path):
+        if not f.file.endswith('compiler.rs') or f.path in DECL or f.path in INIT:
+            continue
+        init = {bi for bi, t in f.calls() if callee_name(t) in INIT}
+        for d, t in f.calls():
+            if callee_name(t) not in DECL:
+                continue
+            r.check(c01.all_paths_hit(f, d, init), '%s: %s is followed by an initialisation on every path' % (f.path.replace(P, ''), callee_name(t).rsplit('::', 1)[-1]),
+                    '%s declares a local (%s) and can return without initialising it: the local stays in the list with no depth, and the next scope end / break / continue of the '
+                    'function unwraps it (panic on malformed input)' % (f.path, callee_name(t).rsplit('::', 1)[-1]), f.loc(t.get('sp')))
